@@ -1,7 +1,7 @@
 CONSTANTS
   Readers = {r1, r2}
   Writers = {w1, w2}
-  MaxWrites = 3
+  MaxWrites = 2
   MaxReads = 2
   Perpetual = FALSE
   MutNoBarrier = FALSE
@@ -10,3 +10,4 @@ CONSTANTS
   MutLoadFirst = FALSE
 SPECIFICATION Spec
 INVARIANTS Safe CurrentAlive NoLeak LockBalanced MutexOwned ReadWaitFree TypeOK
+SYMMETRY Perms
